@@ -59,9 +59,14 @@ StopReq(e) == /\ err' = (IF phase = "finished" THEN err ELSE First(0))
 SupFail(e) == /\ supf' = (IF supf = NONE THEN e.e ELSE supf)
               /\ UNCHANGED <<simset, err, started, failedstart, stopcnt, sast, sabeg, stopt0, phase, doomed, sdrun, sdwant>>
 (* external events enter only a running circuit and are marked as external *)
-Ext(e) == /\ IF Ready THEN /\ e.outcome = "delivered" /\ e.deliv /\ e.retok      \* the handler's result is returned
-                           /\ e.got = ExpectedSource(e.src) /\ e.valok /\ e.restok
-                      ELSE e.outcome = "invalid" /\ ~e.deliv
+(* (a doomed run stops because of an error that no line announced: once its clean-up    *)
+(* has begun the circuit is not ready; before that either answer is possible)            *)
+Delivered(e) == /\ e.outcome = "delivered" /\ e.deliv /\ e.retok                  \* the handler's result is returned
+                /\ e.got = ExpectedSource(e.src) /\ e.valok /\ e.restok
+Refused(e) == e.outcome = "invalid" /\ ~e.deliv
+Ext(e) == /\ IF ~Ready \/ (doomed /\ stopt0 # NONE) THEN Refused(e)
+             ELSE IF doomed THEN Delivered(e) \/ Refused(e)
+             ELSE Delivered(e)
           /\ Same
 (* an output block ran its function / coroutine; sd = for its stop_data: that is the     *)
 (* block's last action, delivered once, at stop                                          *)
@@ -76,7 +81,10 @@ MkName(e) == /\ (Len(e.name) >= 1 /\ e.name[1] = 95) => e.outcome = "refused"
              /\ Same
 BlockName(e) == ~HasPrefix(e.name) /\ Same
 (* wrong parameters / unknown type: only reported to the caller *)
-ExtBad(e) == /\ e.outcome = (IF Ready THEN "reported" ELSE "invalid") /\ Same
+ExtBad(e) == /\ IF ~Ready \/ (doomed /\ stopt0 # NONE) THEN e.outcome = "invalid"
+                ELSE IF doomed THEN e.outcome \in {"reported", "invalid"}
+                ELSE e.outcome = "reported"
+             /\ Same
 Stop(e) == /\ phase = "live" /\ (err # NONE \/ doomed)                      \* clean-up only after an error / stop request
            /\ e.b \in started /\ stopcnt[e.b] = 0                   \* exactly once, only started blocks
            /\ (~H(tid).blocks[e.b].async =>                         \* asynchronous clean-up comes first
